@@ -489,6 +489,7 @@ DRIVER_HEAD = r"""
 #include <string.h>
 #include <signal.h>
 #include <setjmp.h>
+#include <ucontext.h>
 #include <unistd.h>
 #include <sys/time.h>
 #include <sys/types.h>
@@ -509,16 +510,44 @@ void c04_exit(int code)
 	_exit(code);
 }
 
-static void c04_sig(int signo)
+/* shared with the supervising parent */
+struct c04_shared { size_t func; size_t first; int idx; int faults; };
+static volatile struct c04_shared *c04_sh;
+
+extern char __executable_start, etext;
+
+static void c04_sig(int signo, siginfo_t *si, void *ucv)
 {
+	int in_exe = 1;
+#if defined(__x86_64__) && defined(REG_RIP)
+	/* siglongjmp() out of the C library is not safe (glibc runs the stdio cleanup handlers of the frames it skips, e.g.
+	   those of the sscanf() in bignum_from_string): only jump when the interrupted code is the harness / the runtime */
+	uintptr_t pc = (uintptr_t)((ucontext_t *)ucv)->uc_mcontext.gregs[REG_RIP];
+	in_exe = pc >= (uintptr_t)&__executable_start && pc < (uintptr_t)&etext;
+#endif
+	(void)si;
 	if (signo == SIGVTALRM) {
 		/* periodic CPU-time tick: the c04_need-th one inside the same protected call ends it */
 		if (!c04_armed) { c04_seen = -1; return; }
 		if (c04_seen != c04_seq) { c04_seen = c04_seq; c04_ticks = 0; }
-		if (++c04_ticks >= c04_need) siglongjmp(c04_env, signo);
+		if (++c04_ticks >= c04_need && in_exe) siglongjmp(c04_env, signo);
 		return;
 	}
-	if (c04_armed) siglongjmp(c04_env, signo);
+	if (c04_armed && signo == SIGFPE && in_exe) siglongjmp(c04_env, signo);
+	if (c04_armed) {
+		/* memory fault / abort inside the protected call: report it and end this process, whose memory is not
+		   trusted any more; the parent resumes with the next case in a fresh child */
+		size_t pend;
+		c04_armed = 0;
+		fprintf(c04_res, "%d !S%d", c04_idx, signo);
+		pend = __fpending(stdout);
+		if (pend) { fflush(stdout); fprintf(c04_res, " O%lu", (unsigned long)pend); }
+		fputc('\n', c04_res);
+		fflush(c04_res);
+		c04_sh->idx = c04_idx + 1;
+		c04_sh->faults++;
+		_exit(96);
+	}
 	/* a fault outside the protected call: the call damaged its caller's memory */
 	fprintf(c04_res, "\n%d !C%d\n", c04_idx, signo);
 	fflush(c04_res);
@@ -553,9 +582,6 @@ struct c04_desc {
 """
 
 DRIVER_MAIN = r"""
-/* shared with the supervising parent */
-struct c04_shared { size_t func; size_t first; int idx; int faults; };
-static volatile struct c04_shared *c04_sh;
 static int c04_iso;     /* argv[2] == "iso": every function starts in a fresh child */
 
 static void c04_run(const struct c04_desc *d, int start)
@@ -611,14 +637,6 @@ again:
 		pend = __fpending(stdout);
 		if (pend) { fflush(stdout); fprintf(res, " O%lu", (unsigned long)pend); }
 		fputc('\n', res);
-		if (rc == SIGSEGV || rc == SIGBUS || rc == SIGILL || rc == SIGABRT) {
-			/* a memory fault inside the call: this process's memory is not trusted any more; the parent
-			   resumes with the next case in a fresh child */
-			c04_sh->idx = idx + 1;
-			c04_sh->faults++;
-			fflush(res);
-			_exit(96);
-		}
 	}
 }
 
@@ -640,8 +658,8 @@ int main(int argc, char **argv)
 	c04_sh = mmap(NULL, sizeof(*c04_sh), PROT_READ | PROT_WRITE, MAP_SHARED | MAP_ANONYMOUS, -1, 0);
 	if (c04_sh == MAP_FAILED) return 95;
 	memset(&sa, 0, sizeof(sa));
-	sa.sa_handler = c04_sig;
-	sa.sa_flags = SA_NODEFER;
+	sa.sa_sigaction = c04_sig;
+	sa.sa_flags = SA_NODEFER | SA_SIGINFO;
 	sigemptyset(&sa.sa_mask);
 	c04_sh->func = 0;
 	c04_sh->idx = 0;
